@@ -18,6 +18,8 @@ import (
 	"syscall"
 	"testing"
 	"time"
+
+	"pgregory.net/rapid"
 )
 
 // FuzzCase is the case part of a replay file produced by the fuzz stage.
@@ -170,6 +172,105 @@ func (r *Rec) ReplayFuzz(path string, oracles map[string]FuzzOracle) (handled bo
 	msg, key, _, _ := o(data)
 	if msg != "" {
 		r.Fail("fuzz-"+fc.Fuzz, fc, key, msg)
+	}
+	return true
+}
+
+// RapidVerdict is what a rapid-driven fuzz property reports about the case it drew.
+type RapidVerdict struct {
+	Case       interface{} // the structured case (becomes the replay file when Msg != "")
+	Kind       string      // replay kind
+	Msg        string      // non-empty: violation
+	Key        string      // known-finding signature, if any
+	Class      string
+	NonTrivial bool
+}
+
+// FuzzRapid registers a native fuzz target whose input bytes drive the draws of a rapid generator
+// (rapid.MakeFuzz): the property's own generator becomes coverage-guided.  A failing case is written as an
+// ordinary structured replay file, so that replaying it needs neither the fuzzing engine nor rapid.
+func FuzzRapid(f *testing.F, id string, prop func(*rapid.T) RapidVerdict) {
+	fn := rapid.MakeFuzz(func(rt *rapid.T) {
+		v := prop(rt)
+		fzMu.Lock()
+		fzStats.Execs++
+		if v.Class != "" {
+			fzStats.Classes[v.Class]++
+		}
+		if v.NonTrivial {
+			fzStats.NonTrivial++
+			if n := fzStats.NonTrivial; (n == 1 || n == 50 || n == 2000) && len(fzStats.Samples) < 3 {
+				if b, err := json.Marshal(v.Case); err == nil && len(b) < 4000 {
+					fzStats.Samples = append(fzStats.Samples, string(b))
+				}
+			}
+		}
+		excluded := false
+		if v.Msg != "" && v.Key != "" {
+			if e, ok := fzKnown[id+"/"+v.Key]; ok && e.Status == "open" {
+				fzStats.Excluded[v.Key]++
+				excluded = true
+			}
+		}
+		if fzStats.Execs%200 == 1 || v.Msg != "" {
+			fuzzFlush()
+		}
+		fzMu.Unlock()
+		if v.Msg != "" && !excluded {
+			if dir := os.Getenv("VERIF_FUZZ_OUT"); dir != "" {
+				b, _ := json.Marshal(v.Case)
+				rf := ReplayFile{Property: id, Kind: v.Kind, Msg: v.Msg, Case: b}
+				out, _ := json.MarshalIndent(rf, "", " ")
+				os.WriteFile(filepath.Join(dir, fmt.Sprintf("case-%08d-%x.json", len(b), Hash64(v.Case))), out, 0o644)
+			}
+			rt.Fatalf("%s", v.Msg)
+		}
+	})
+	f.Fuzz(func(t *testing.T, data []byte) {
+		fuzzSetup(id)
+		done := make(chan struct{})
+		go func() {
+			select {
+			case <-done:
+			case <-time.After(time.Duration(envInt("VERIF_FUZZ_WATCHDOG", 120)) * time.Second):
+				if dir := os.Getenv("VERIF_FUZZ_OUT"); dir != "" {
+					os.WriteFile(filepath.Join(dir, fmt.Sprintf("hang-%d.txt", os.Getpid())), []byte(strconv.Quote(string(data))), 0o644)
+				}
+				os.Exit(97)
+			}
+		}()
+		defer close(done)
+		fn(t, data)
+	})
+}
+
+// ReplayFuzzRapid handles a replay file that holds the raw corpus bytes of a rapid-driven fuzz target (written by the
+// driver when the fuzzing engine reported a crash of the worker process itself, so that no structured case was saved).
+func (r *Rec) ReplayFuzzRapid(t *testing.T, path string, props map[string]func(*rapid.T) RapidVerdict) (handled bool) {
+	var fc FuzzCase
+	if _, err := LoadReplay(path, &fc); err != nil || fc.Fuzz == "" {
+		return false
+	}
+	prop, ok := props[fc.Fuzz]
+	if !ok {
+		return false
+	}
+	data, err := ParseCorpus(fc.Corpus)
+	if err != nil {
+		return false
+	}
+	r.Eval()
+	var got RapidVerdict
+	t.Run("replay", func(st *testing.T) {
+		rapid.MakeFuzz(func(rt *rapid.T) {
+			v := prop(rt)
+			if v.Msg != "" {
+				got = v
+			}
+		})(st, data)
+	})
+	if got.Msg != "" {
+		r.Fail("fuzz-"+fc.Fuzz, fc, got.Key, got.Msg)
 	}
 	return true
 }
